@@ -36,13 +36,16 @@ import (
 	"math"
 	"math/rand"
 	"os"
+	"regexp"
 	"sort"
 	"strconv"
 	"strings"
 	"sync"
+	"sync/atomic"
 	"time"
 
 	"github.com/brutella/hc/accessory"
+	"github.com/brutella/hc/characteristic"
 	"github.com/brutella/hc/service"
 
 	"verif/harness/app"
@@ -56,6 +59,34 @@ import (
 type svcSpec struct {
 	Ctor  string   `json:"service"`               // catalog service constructor, or "custom" (service.New with a vendor type)
 	Chars []string `json:"extra_chars,omitempty"` // catalog characteristic constructors appended to it
+	// Vendor > 0: the custom service gets vendorTypes[Vendor-1] as its type and one characteristic of a vendor type
+	Vendor int `json:"vendor_type,omitempty"`
+}
+
+// vendorTypes are long-form UUIDs as vendors choose them: any first digit (also 0), the Apple base and others, upper
+// and lower case.  The attribute database must carry the type the application gave (HAP's short form is allowed for
+// types of the Apple base UUID only).
+var vendorTypes = []string{
+	"F0000000-0000-1000-8000-0026BB765291", "00000001-0000-1777-8000-775D67EC4377", "0A1B2C3D-4E5F-6071-8293-A4B5C6D7E8F9",
+	"00000000-0000-0000-0000-000000000001", "10000000-0000-1000-8000-0026BB765291", "000000FF-0000-2000-8000-0026BB765291",
+	"e863f10a-079e-48ff-8f27-9c2605a29f52", "00001530-1212-EFDE-1523-785FEABCD123", "34AB8811-AC7F-4340-BAC3-FD6A85F9943B",
+	"0000003E-0000-1000-8000-0026BB765291",
+}
+
+const appleBase = "-0000-1000-8000-0026BB765291"
+
+var uuidRe = regexp.MustCompile(`^[0-9A-Fa-f]{8}-[0-9A-Fa-f]{4}-[0-9A-Fa-f]{4}-[0-9A-Fa-f]{4}-[0-9A-Fa-f]{12}$`)
+var shortRe = regexp.MustCompile(`^[0-9A-Fa-f]{1,8}$`)
+
+// sameType: the served type is the given one, or (for the Apple base only) its short form.
+func sameType(served, given string) bool {
+	if strings.EqualFold(served, given) {
+		return true
+	}
+	if g := strings.ToUpper(given); strings.HasSuffix(g, appleBase) && shortRe.MatchString(served) {
+		return strings.TrimLeft(g[:8], "0") == strings.TrimLeft(strings.ToUpper(served), "0")
+	}
+	return false
 }
 
 type flagOp struct {
@@ -98,6 +129,9 @@ var (
 
 const customType = "F0000000-0000-1000-8000-0026BB765291"
 
+var typeIssues sync.Map // *accessory.Accessory -> []string: vendor types that an object does not carry as given
+var vendorServices atomic.Int64
+
 // ---------------------------------------------------------------- building
 
 type built struct {
@@ -130,6 +164,28 @@ func assemble(sp accSpec) (acc *accessory.Accessory, skipped int) {
 		var s *service.Service
 		if ss.Ctor == "custom" {
 			s = service.New(customType)
+			if ss.Vendor > 0 {
+				vt, ct := vendorTypes[(ss.Vendor-1)%len(vendorTypes)], vendorTypes[ss.Vendor%len(vendorTypes)]
+				s = service.New(vt)
+				vc := characteristic.NewBool(ct)
+				vc.Perms = characteristic.PermsAll()
+				vc.SetValue(true)
+				s.AddCharacteristic(vc.Characteristic)
+				var issues []string
+				if !sameType(s.Type, vt) {
+					issues = append(issues, fmt.Sprintf("service.New(%q) has the type %q", vt, s.Type))
+				}
+				if !sameType(vc.Type, ct) {
+					issues = append(issues, fmt.Sprintf("characteristic.NewBool(%q) has the type %q", ct, vc.Type))
+				}
+				if len(issues) > 0 {
+					old, _ := typeIssues.LoadOrStore(acc, issues)
+					if o := old.([]string); len(o) > 0 && &o[0] != &issues[0] {
+						typeIssues.Store(acc, append(o, issues...))
+					}
+				}
+				vendorServices.Add(1)
+			}
 		} else {
 			c, ok := svcByName[ss.Ctor]
 			if !ok {
@@ -652,6 +708,9 @@ func (c *checker) parseDB(rc *recipe, source string, body []byte) (view []accVie
 				bad("service", "type", "bad", "?", fmt.Sprintf(`service #%d of accessory #%d: "type" is %v, not a non-empty string`, j, i, x), x)
 			} else {
 				sv.Type, styp = s, s
+				if !uuidRe.MatchString(s) && !shortRe.MatchString(s) {
+					bad("service", "type", "malformed", s, fmt.Sprintf(`service #%d of accessory #%d: "type" is %q, neither a HAP short form (1..8 hex digits) nor a 128-bit UUID`, j, i, s), x)
+				}
 			}
 			if x, has := sm["iid"]; !has {
 				bad("service", "iid", "missing", styp, fmt.Sprintf(`service #%d (%s) of accessory #%d has no "iid"`, j, styp, i), keys(sm))
@@ -709,6 +768,9 @@ func (c *checker) parseDB(rc *recipe, source string, body []byte) (view []accVie
 					bad("characteristic", "type", "bad", "?", fmt.Sprintf(`characteristic #%d of service #%d (%s): "type" is %v, not a non-empty string`, k, j, styp, x), x)
 				} else {
 					cv.Type, ctyp = s, s
+					if !uuidRe.MatchString(s) && !shortRe.MatchString(s) {
+						bad("characteristic", "type", "malformed", s, fmt.Sprintf(`characteristic #%d of service #%d (%s): "type" is %q, neither a HAP short form (1..8 hex digits) nor a 128-bit UUID`, k, j, styp, s), x)
+					}
 				}
 				where := fmt.Sprintf("characteristic #%d (%s) of service #%d (%s) of accessory #%d", k, ctyp, j, styp, i)
 				if x, has := cm["iid"]; !has {
@@ -806,6 +868,13 @@ func (c *checker) runRecipe(idx int, rc *recipe, builds int) outcome {
 			return out
 		}
 		r.Count("constructors_skipped_panic_or_nil", b.skipped)
+		for _, o := range b.objs {
+			if is, has := typeIssues.LoadAndDelete(o); has && o != nil {
+				for _, what := range is.([]string) {
+					c.fail(rc, "type:not-as-given", what+": neither the type the application gave nor (for the Apple base UUID) its short form", nil)
+				}
+			}
+		}
 		ov := viewOfObjects(b.cont)
 		c.checkIDs(rc, "objects", ov)
 		body, err := json.Marshal(b.cont)
@@ -1029,6 +1098,9 @@ func (g *gen) randSvc(rnd *rand.Rand) svcSpec {
 	var s svcSpec
 	if rnd.Intn(6) == 0 {
 		s.Ctor = "custom"
+		if rnd.Intn(3) > 0 {
+			s.Vendor = 1 + rnd.Intn(len(vendorTypes))
+		}
 		for n := rnd.Intn(7); n > 0; n-- {
 			s.Chars = append(s.Chars, g.chars[rnd.Intn(len(g.chars))])
 		}
@@ -1251,7 +1323,7 @@ func (g *gen) fixedRecipes() []*recipe {
 	for i := 0; i < len(g.chars); i += 24 {
 		a := accSpec{Ctor: "New", Type: 1}
 		for j := i; j < i+24 && j < len(g.chars); j += 8 {
-			s := svcSpec{Ctor: "custom"}
+			s := svcSpec{Ctor: "custom", Vendor: 1 + (j/8)%len(vendorTypes)}
 			for k := j; k < j+8 && k < i+24 && k < len(g.chars); k++ {
 				s.Chars = append(s.Chars, g.chars[k])
 			}
@@ -1452,5 +1524,7 @@ func main() {
 	r.Floor("json_hidden_services", int(r.Counter("json_hidden_services")), total/10)
 	r.Floor("json_primary_services", int(r.Counter("json_primary_services")), total/10)
 	r.Floor("served_restart_comparisons", int(r.Counter("served_restart_comparisons")), nServed*9/10)
+	r.Count("vendor_type_services_built", int(vendorServices.Load()))
+	r.Floor("vendor_type_services_built", int(vendorServices.Load()), 100)
 	r.Finish()
 }
